@@ -84,7 +84,8 @@ Inductive cand :=
 | CClean (t : task)      (* ready, not clean, change ready, a cleanup handler is registered: r.clean(t) *)
 | CSkip.                 (* anything else *)
 
-(* the loop: `running` starts as the tasks with tombs and grows by every task started with r.run; r.clean adds a tomb
+(* the loop: `running` starts as ALL the tasks with tombs, whatever their status (a task aborted while its handler is
+   still executing has status Abort and keeps its tomb until the goroutine returns), and grows by every task started with r.run; r.clean adds a tomb
    but does not touch `running`; a task that already has a tomb is skipped (`if tb != nil { continue }`) *)
 Fixpoint ensure_loop (tb : tombs) (running : list task) (cs : list cand) : tombs :=
   match cs with
@@ -148,7 +149,10 @@ Definition mismatch (c : case) : bool :=
   | CPass before after_h idle =>
       (* the pass is order dependent; what every order satisfies: whatever was left idle is blocked by the final
          running set (the predicates are monotone), and what was started is not blocked by what ran before *)
-      negb (forallb (fun t => blocked t (map fst before ++ after_h)) idle)
+      negb (forallb (fun t => blocked t (map fst before ++ after_h)) idle) ||
+      (* ... and whatever was started in this pass was not blocked by the tasks that had a tomb before it (every one of
+         them, whatever its status: `running` is built from r.tombs) *)
+      negb (forallb (fun t => has_tomb (t_id t) before || negb (blocked t (map fst before))) after_h)
   | CExec _ => false
   | CTombs _ => false
   end.
